@@ -39,21 +39,21 @@ Proof.
 Qed.
 
 (** the node after G, A1 (main), B1 (side branch) *)
-Definition wn : node := history wapply true 100 (init_node wg) [(0, wA1); (0, wB1)].
+Definition wn : node := history wapply true false 100 (init_node wg) [(0, wA1); (0, wB1)].
 
 Example wn_inv : Inv wapply wspent wU wg wn.
 Proof.
-  apply (history_inv wapply 100 wspent wapply_fresh wapply_spent wU wU_inj wg).
+  apply (history_inv wapply 100 false wspent wapply_fresh wapply_spent wU wU_inj wg).
   - apply inv_init; try reflexivity. left. reflexivity.
-  - intros x [<-|[<-|[]]]; simpl; split; try discriminate; unfold wU; simpl; auto.
+  - intros x [<-|[<-|[]]]; simpl; split; try (right; discriminate); unfold wU; simpl; auto.
 Qed.
 Example wn_nontrivial : no (best wn) = 1 /\ get_block (dur wn) 3 = Some wB1.
 Proof. vm_compute. auto. Qed.
 
 (** With the repaired reorg the invalid B2 leaves the invariant intact and A2 is accepted. *)
 Example fixed_accepts_A2 :
-  let n1 := fst (add_block wapply true 100 wn wB2) in
-  snd (add_block wapply true 100 n1 wA2) = ROk /\ hash_field (best (fst (add_block wapply true 100 n1 wA2))) = 6.
+  let n1 := fst (add_block wapply true false 100 wn wB2) in
+  snd (add_block wapply true false 100 n1 wA2) = ROk /\ hash_field (best (fst (add_block wapply true false 100 n1 wA2))) = 6.
 Proof. vm_compute. auto. Qed.
 
 (** F7: on the unrepaired code the same arrival breaks the invariant (state root = root of B1
@@ -64,7 +64,7 @@ Theorem add_block_inv_refuted :
     (forall r b r' t, apply r b = Some r' -> spent r' t = spent r t || mem t (txs b)) /\
     (forall a b, U a -> U b -> hash_field a = hash_field b -> a = b) /\
     Inv apply spent U g n /\ U b /\ no b <> 0 /\
-    ~ Inv apply spent U g (fst (add_block apply false 100 n b)).
+    ~ Inv apply spent U g (fst (add_block apply false false 100 n b)).
 Proof.
   exists wapply, wspent, wU, wg, wn, wB2.
   split; [exact wapply_fresh|]. split; [exact wapply_spent|]. split; [exact wU_inj|].
@@ -72,7 +72,7 @@ Proof.
   intros I. pose proof (i_sdb _ _ _ _ _ I) as H. vm_compute in H. discriminate.
 Qed.
 Example unfixed_rejects_A2 :
-  let n1 := fst (add_block wapply false 100 wn wB2) in snd (add_block wapply false 100 n1 wA2) = RErr.
+  let n1 := fst (add_block wapply false false 100 wn wB2) in snd (add_block wapply false false 100 n1 wA2) = RErr.
 Proof. vm_compute. reflexivity. Qed.
 
 (** BlockNo 0: without the hypothesis [no b <> 0] the invariant fails even on the repaired
@@ -83,12 +83,12 @@ Theorem add_block_inv_no0_refuted :
     (forall r b r' t, apply r b = Some r' -> spent r' t = spent r t || mem t (txs b)) /\
     (forall a b, U a -> U b -> hash_field a = hash_field b -> a = b) /\
     Inv apply spent U g n /\ U b /\ no b = 0 /\
-    ~ Inv apply spent U g (fst (add_block apply true 100 n b)).
+    ~ Inv apply spent U g (fst (add_block apply true false 100 n b)).
 Proof.
   exists wapply, wspent, wU, wg, wn, wX.
   split; [exact wapply_fresh|]. split; [exact wapply_spent|]. split; [exact wU_inj|].
   split; [exact wn_inv|]. split; [unfold wU; simpl; auto 10|]. split; [reflexivity|].
   intros I. pose proof (i_above _ _ _ _ _ I 1) as H.
-  assert (E : no (best (fst (add_block wapply true 100 wn wX))) = 0) by (vm_compute; reflexivity).
+  assert (E : no (best (fst (add_block wapply true false 100 wn wX))) = 0) by (vm_compute; reflexivity).
   rewrite E in H. specialize (H ltac:(lia)). vm_compute in H. discriminate.
 Qed.
